@@ -328,3 +328,40 @@ Example fresh_view_steps_nonvacuous :
   scan_codes f [] ms ps 2 2 false = [68%N] /\
   scan_codes f [] ms ps 2 1 false = [69%N].
 Proof. vm_compute. repeat split; reflexivity. Qed.
+
+(* (3b) lookups by transition id along a history. The store of a client only
+   grows (SArrive) and ids are looked up at any moment (SLookup: ScrollToTx by
+   id, address jumps, log links), before or after their record arrived;
+   Client.TxIndex keeps a memo of the lookups that found a record
+   (tx_index_memo). After ANY interleaving of arrivals and lookups the answer
+   for any id is the linear scan over the records received so far: a function
+   of the current record list alone. (ClearCache / the memory GC are not
+   modelled.) *)
+Theorem tx_index_history_independent :
+  forall (evs : list store_event) (id : nat),
+    let s := store_run tx_index_memo ([], []) evs in
+    fst s = store_arrived evs /\
+    fst (tx_index_memo (snd s) (fst s) id) = tx_index_scan (store_arrived evs) id.
+Proof. exact C16Proofs.tx_index_history_lemma. Qed.
+Print Assumptions tx_index_history_independent.
+
+(* a lookup BEFORE the record arrives (answer -1, nothing remembered), the
+   same lookup after: found, and remembered *)
+Example tx_index_history_independent_nonvacuous :
+  let m := fun id => mkMsg id [1%N] 1 0 0 1 true false false false [0] [] in
+  let evs := [SArrive (m 0); SLookup 1; SArrive (m 1); SLookup 1] in
+  fst (tx_index_memo [] [m 0] 1) = (-1)%Z /\
+  snd (store_run tx_index_memo ([], []) (firstn 2 evs)) = [] /\
+  fst (tx_index_memo (snd (store_run tx_index_memo ([], []) (firstn 3 evs)))
+                     (fst (store_run tx_index_memo ([], []) (firstn 3 evs))) 1) = 1%Z /\
+  snd (store_run tx_index_memo ([], []) evs) = [(1, 1%Z)].
+Proof. vm_compute. repeat split; reflexivity. Qed.
+
+(* the same statement about a memo that remembers misses too (NOT the code,
+   tx_index_memo_all) is false: the witness is a lookup before arrival *)
+Theorem tx_index_memo_of_misses_refuted :
+  exists (evs : list store_event) (id : nat),
+    let s := store_run tx_index_memo_all ([], []) evs in
+    fst (tx_index_memo_all (snd s) (fst s) id) <> tx_index_scan (store_arrived evs) id.
+Proof. exact C16Proofs.tx_index_memo_of_misses_refuted_lemma. Qed.
+Print Assumptions tx_index_memo_of_misses_refuted.
